@@ -36,48 +36,47 @@ Proof.
 Qed.
 
 (* ---------- body_frames ---------- *)
-Lemma body_frames_state done p s1 fr s2 lost :
-  body_frames done p s1 = (fr, s2, lost) ->
+Lemma body_frames_state e done p s1 fr s2 :
+  body_frames e done p s1 = (fr, s2) ->
   sentH s2 = sentH s1 /\ buf s2 = buf s1 /\ berr s2 = berr s1.
 Proof.
   unfold body_frames.
   destruct (if done then promote (hh s1) (trailers s1) else (hh s1, trailers s1)) as [h2 tr2].
   destruct (done && match tr2 with [] => false | _ => true end).
-  - destruct (encode_headers h2 tr2); intro H; inversion H; subst; simpl; repeat split; reflexivity.
+  - destruct (encode_trailers (e_hop e) h2 tr2); intro H; inversion H; subst; simpl; repeat split; reflexivity.
   - intro H; inversion H; subst; simpl; repeat split; reflexivity.
 Qed.
 
-Lemma body_frames_notdone p s1 fr s2 lost :
-  body_frames false p s1 = (fr, s2, lost) -> no_end fr /\ lost = false.
+Lemma body_frames_notdone e p s1 fr s2 :
+  body_frames e false p s1 = (fr, s2) -> no_end fr.
 Proof.
   unfold body_frames. simpl. intro H.
-  destruct ((0 <? blen p) || false); inversion H; subst; split; try reflexivity.
+  destruct ((0 <? blen p) || false); inversion H; subst.
   - apply no_end_one. reflexivity.
   - apply no_end_nil.
 Qed.
 
-Lemma body_frames_done p s1 fr s2 lost :
-  body_frames true p s1 = (fr, s2, lost) ->
-  if lost then no_end fr else ends_once fr.
+Lemma body_frames_done e p s1 fr s2 :
+  body_frames e true p s1 = (fr, s2) -> ends_once fr.
 Proof.
   unfold body_frames.
   destruct (promote (hh s1) (trailers s1)) as [h2 tr2].
-  remember (encode_headers h2 tr2) as enc eqn:Eenc. clear Eenc.
+  remember (encode_trailers (e_hop e) h2 tr2) as enc eqn:Eenc. clear Eenc.
   destruct tr2 as [|t tr2]; cbn [andb negb].
   - rewrite orb_true_r. intro H. inversion H; subst.
     exists [], (FD true p). split; [reflexivity|]. split; [apply no_end_nil|reflexivity].
   - rewrite orb_false_r.
+    assert (Hp : no_end (if 0 <? blen p then [FD false p] else []))
+      by (destruct (0 <? blen p); [apply no_end_one; reflexivity|apply no_end_nil]).
     destruct enc as [|fl0 fl]; intro H; inversion H; subst.
-    + destruct (0 <? blen p); [apply no_end_one; reflexivity|apply no_end_nil].
-    + exists (if 0 <? blen p then [FD false p] else []), (FH true (fl0 :: fl)).
-      split; [reflexivity|]. split; [|reflexivity].
-      destruct (0 <? blen p); [apply no_end_one; reflexivity|apply no_end_nil].
+    + exists (if 0 <? blen p then [FD false p] else []), (FD true []). repeat split; [exact Hp].
+    + exists (if 0 <? blen p then [FD false p] else []), (FH true (fl0 :: fl)). repeat split; [exact Hp].
 Qed.
 
 (* ---------- write_chunk ---------- *)
 (* the state components that matter for the bufio layer *)
-Lemma write_chunk_state e done p s fr n s' lost :
-  write_chunk e done p s = (fr, n, s', lost) ->
+Lemma write_chunk_state e done p s fr n s' :
+  write_chunk e done p s = (fr, n, s') ->
   sentH s' = true /\ buf s' = buf s /\ berr s' = berr s.
 Proof.
   unfold write_chunk.
@@ -87,90 +86,86 @@ Proof.
   - cbn iota beta.
     destruct (e_head e); [intro H; inversion H; subst; rewrite Es0, Hb, He; repeat split; reflexivity|].
     destruct ((blen p =? 0) && negb done); [intro H; inversion H; subst; rewrite Es0, Hb, He; repeat split; reflexivity|].
-    destruct (body_frames done p s0) as [[fr2 s2] l2] eqn:Eb. intro H; inversion H; subst.
+    destruct (body_frames e done p s0) as [fr2 s2] eqn:Eb. intro H; inversion H; subst.
     destruct (body_frames_state _ _ _ _ _ _ Eb) as [A [B C]]. rewrite A, B, C, Es0, Hb, He. repeat split; reflexivity.
   - destruct (first_headers e done p s0) as [[f s1] es] eqn:Ef.
     destruct (first_headers_shape _ _ _ _ _ _ _ Ef) as [_ [A [B [C _]]]].
     destruct es; [intro H; inversion H; subst; rewrite A, B, C, Hb, He; repeat split; reflexivity|].
     destruct (e_head e); [intro H; inversion H; subst; rewrite A, B, C, Hb, He; repeat split; reflexivity|].
     destruct ((blen p =? 0) && negb done); [intro H; inversion H; subst; rewrite A, B, C, Hb, He; repeat split; reflexivity|].
-    destruct (body_frames done p s1) as [[fr2 s2] l2] eqn:Eb. intro H; inversion H; subst.
+    destruct (body_frames e done p s1) as [fr2 s2] eqn:Eb. intro H; inversion H; subst.
     destruct (body_frames_state _ _ _ _ _ _ Eb) as [A' [B' C']]. rewrite A', B', C', A, B, C, Hb, He. repeat split; reflexivity.
 Qed.
 
 (* not done, not HEAD: no END_STREAM, everything accepted *)
-Lemma write_chunk_notdone e p s fr n s' lost :
-  e_head e = false -> write_chunk e false p s = (fr, n, s', lost) ->
-  no_end fr /\ n = blen p /\ lost = false.
+Lemma write_chunk_notdone e p s fr n s' :
+  e_head e = false -> write_chunk e false p s = (fr, n, s') ->
+  no_end fr /\ n = blen p.
 Proof.
   intro Hh. unfold write_chunk. rewrite Hh.
   set (s0 := write_header e 200 s).
   destruct (sentH s0) eqn:Es0.
   - cbn iota beta. rewrite andb_true_r.
     destruct (blen p =? 0) eqn:Ep.
-    + intro H; inversion H; subst. apply Z.eqb_eq in Ep. repeat split; [apply no_end_nil|lia].
-    + destruct (body_frames false p s0) as [[fr2 s2] l2] eqn:Eb. intro H; inversion H; subst.
-      destruct (body_frames_notdone _ _ _ _ _ Eb) as [A B]. repeat split; assumption.
+    + intro H; inversion H; subst. apply Z.eqb_eq in Ep. split; [apply no_end_nil|lia].
+    + destruct (body_frames e false p s0) as [fr2 s2] eqn:Eb. intro H; inversion H; subst.
+      split; [apply (body_frames_notdone _ _ _ _ _ Eb)|reflexivity].
   - destruct (first_headers e false p s0) as [[f s1] es] eqn:Ef.
     destruct (first_headers_shape _ _ _ _ _ _ _ Ef) as [[fl Hf] [_ [_ [_ Hes]]]].
     rewrite Hh in Hes. simpl in Hes. subst es f. rewrite andb_true_r.
     destruct (blen p =? 0) eqn:Ep.
-    + intro H; inversion H; subst. apply Z.eqb_eq in Ep. repeat split; [apply no_end_one; reflexivity|lia].
-    + destruct (body_frames false p s1) as [[fr2 s2] l2] eqn:Eb. intro H; inversion H; subst.
-      destruct (body_frames_notdone _ _ _ _ _ Eb) as [A B]. repeat split; [|assumption].
-      apply (no_end_app [FH false fl] fr2); [apply no_end_one; reflexivity|assumption].
+    + intro H; inversion H; subst. apply Z.eqb_eq in Ep. split; [apply no_end_one; reflexivity|lia].
+    + destruct (body_frames e false p s1) as [fr2 s2] eqn:Eb. intro H; inversion H; subst.
+      split; [|reflexivity].
+      apply (no_end_app [FH false fl] fr2); [apply no_end_one; reflexivity|apply (body_frames_notdone _ _ _ _ _ Eb)].
 Qed.
 
-(* done, not HEAD: exactly one END_STREAM at the end, unless the trailers frame was lost *)
-Lemma write_chunk_done e p s fr n s' lost :
-  e_head e = false -> write_chunk e true p s = (fr, n, s', lost) ->
-  if lost then no_end fr else ends_once fr.
+(* done, not HEAD: exactly one END_STREAM, at the end *)
+Lemma write_chunk_done e p s fr n s' :
+  e_head e = false -> write_chunk e true p s = (fr, n, s') -> ends_once fr.
 Proof.
   intro Hh. unfold write_chunk. rewrite Hh.
   set (s0 := write_header e 200 s).
   destruct (sentH s0) eqn:Es0.
   - cbn iota beta. rewrite andb_false_r.
-    destruct (body_frames true p s0) as [[fr2 s2] l2] eqn:Eb. intro H; inversion H; subst.
+    destruct (body_frames e true p s0) as [fr2 s2] eqn:Eb. intro H; inversion H; subst.
     apply (body_frames_done _ _ _ _ _ Eb).
   - destruct (first_headers e true p s0) as [[f s1] es] eqn:Ef.
     destruct (first_headers_shape _ _ _ _ _ _ _ Ef) as [[fl Hf] [_ [_ [_ Hes]]]].
     subst f. destruct es.
     + intro H; inversion H; subst. exists [], (FH true fl). split; [reflexivity|]. split; [apply no_end_nil|reflexivity].
     + rewrite andb_false_r.
-      destruct (body_frames true p s1) as [[fr2 s2] l2] eqn:Eb. intro H; inversion H; subst.
-      pose proof (body_frames_done _ _ _ _ _ Eb) as Hd. destruct lost.
-      * apply (no_end_app [FH false fl] fr2); [apply no_end_one; reflexivity|exact Hd].
-      * destruct Hd as [pre [l [E [Hp Hl]]]]. exists (FH false fl :: pre), l. rewrite E. split; [reflexivity|].
-        split; [|exact Hl]. intros g [<-|Hg]; [reflexivity|apply Hp, Hg].
+      destruct (body_frames e true p s1) as [fr2 s2] eqn:Eb. intro H; inversion H; subst.
+      destruct (body_frames_done _ _ _ _ _ Eb) as [pre [l [E [Hp Hl]]]].
+      exists (FH false fl :: pre), l. rewrite E. split; [reflexivity|].
+      split; [|exact Hl]. intros g [<-|Hg]; [reflexivity|apply Hp, Hg].
 Qed.
 
 (* HEAD: the first call writes one HEADERS frame with END_STREAM, later calls write nothing *)
-Lemma write_chunk_head e done p s fr n s' lost :
-  e_head e = true -> write_chunk e done p s = (fr, n, s', lost) ->
-  lost = false /\ (if sentH s then fr = [] else exists fl, fr = [FH true fl]).
+Lemma write_chunk_head e done p s fr n s' :
+  e_head e = true -> write_chunk e done p s = (fr, n, s') ->
+  (if sentH s then fr = [] else exists fl, fr = [FH true fl]).
 Proof.
   intro Hh. unfold write_chunk. rewrite Hh. rewrite <- (wh_sentH e 200 s).
   set (s0 := write_header e 200 s).
   destruct (sentH s0) eqn:Es0.
-  - cbn iota beta. intro H; inversion H; subst. split; reflexivity.
+  - cbn iota beta. intro H; inversion H; subst. reflexivity.
   - destruct (first_headers e done p s0) as [[f s1] es] eqn:Ef.
     destruct (first_headers_shape _ _ _ _ _ _ _ Ef) as [[fl Hf] [_ [_ [_ Hes]]]].
     rewrite Hh, orb_true_r in Hes. subst es f.
-    intro H; inversion H; subst. split; [reflexivity|]. exists fl. reflexivity.
+    intro H; inversion H; subst. exists fl. reflexivity.
 Qed.
 
 (* ---------- bufio ---------- *)
-Lemma set_buf_sentH s b er : sentH (set_buf s b er) = sentH s. Proof. reflexivity. Qed.
-
 (* non-HEAD *)
-Lemma bw_flush_notdone e s fr s' lost :
-  e_head e = false -> berr s = false -> bw_flush e false s = (fr, s', lost) ->
+Lemma bw_flush_notdone e s fr s' :
+  e_head e = false -> berr s = false -> bw_flush e false s = (fr, s') ->
   no_end fr /\ berr s' = false.
 Proof.
   intros Hh Hb. unfold bw_flush. rewrite Hb.
   destruct (buf s) as [|b0 br] eqn:Ebuf; [intro H; inversion H; subst; split; [apply no_end_nil|exact Hb]|].
-  destruct (write_chunk e false (b0 :: br) s) as [[[fr1 n] s1] l1] eqn:Ew.
-  destruct (write_chunk_notdone _ _ _ _ _ _ _ Hh Ew) as [A [B C]].
+  destruct (write_chunk e false (b0 :: br) s) as [[fr1 n] s1] eqn:Ew.
+  destruct (write_chunk_notdone _ _ _ _ _ _ Hh Ew) as [A B].
   rewrite B, Z.ltb_irrefl. intro H; inversion H; subst. split; [exact A|reflexivity].
 Qed.
 
@@ -183,13 +178,13 @@ Proof.
     intro H; inversion H; subst. split; [exact Ha|reflexivity].
   - destruct (e_bsz e - blen (buf s) <? blen p).
     + simpl. destruct (buf s) as [|b0 br] eqn:Ebuf.
-      * destruct (write_chunk e false p s) as [[[fr1 n] s1] l1] eqn:Ew.
-        destruct (write_chunk_notdone _ _ _ _ _ _ _ Hh Ew) as [A [B C]].
-        destruct (write_chunk_state _ _ _ _ _ _ _ _ Ew) as [_ [_ D]].
+      * destruct (write_chunk e false p s) as [[fr1 n] s1] eqn:Ew.
+        destruct (write_chunk_notdone _ _ _ _ _ _ Hh Ew) as [A B].
+        destruct (write_chunk_state _ _ _ _ _ _ _ Ew) as [_ [_ D]].
         apply IH; [rewrite D; exact Hb|apply no_end_app; assumption].
       * destruct (bw_flush e false (set_buf s ((b0 :: br) ++ firstn (Z.to_nat (e_bsz e - blen (b0 :: br))) p) false))
-          as [[fr1 s1] l1] eqn:Ef.
-        destruct (bw_flush_notdone e _ fr1 s1 l1 Hh (eq_refl : berr (set_buf s _ false) = false) Ef) as [A B].
+          as [fr1 s1] eqn:Ef.
+        destruct (bw_flush_notdone e _ fr1 s1 Hh (eq_refl : berr (set_buf s _ false) = false) Ef) as [A B].
         apply IH; [exact B|apply no_end_app; assumption].
     + simpl. intro H; inversion H; subst. split; [exact Ha|reflexivity].
 Qed.
@@ -198,28 +193,27 @@ Qed.
 Definition head_inv (s : rws) (fs : list frame) : Prop :=
   (if sentH s then exists fl, fs = [FH true fl] else fs = []) /\ (berr s = true -> sentH s = true).
 
-Lemma head_chunk e done p s acc fr n s' lost :
-  e_head e = true -> head_inv s acc -> write_chunk e done p s = (fr, n, s', lost) ->
-  lost = false /\ (if sentH s' then exists fl, acc ++ fr = [FH true fl] else acc ++ fr = []) /\ sentH s' = true.
+Lemma head_chunk e done p s acc fr n s' :
+  e_head e = true -> head_inv s acc -> write_chunk e done p s = (fr, n, s') ->
+  (if sentH s' then exists fl, acc ++ fr = [FH true fl] else acc ++ fr = []) /\ sentH s' = true.
 Proof.
   intros Hh [Hi _] Hw.
-  destruct (write_chunk_head _ _ _ _ _ _ _ _ Hh Hw) as [A B].
-  destruct (write_chunk_state _ _ _ _ _ _ _ _ Hw) as [C _]. rewrite C. split; [exact A|]. split; [|reflexivity].
+  pose proof (write_chunk_head _ _ _ _ _ _ _ Hh Hw) as B.
+  destruct (write_chunk_state _ _ _ _ _ _ _ Hw) as [C _]. rewrite C. split; [|reflexivity].
   destruct (sentH s).
   - subst fr. rewrite app_nil_r. exact Hi.
   - subst acc. exact B.
 Qed.
 
-Lemma head_flush e done s acc fr s' lost :
-  e_head e = true -> head_inv s acc -> bw_flush e done s = (fr, s', lost) ->
-  lost = false /\ head_inv s' (acc ++ fr).
+Lemma head_flush e done s acc fr s' :
+  e_head e = true -> head_inv s acc -> bw_flush e done s = (fr, s') -> head_inv s' (acc ++ fr).
 Proof.
   intros Hh Hi. unfold bw_flush.
-  destruct (berr s) eqn:Eb; [intro H; inversion H; subst; rewrite app_nil_r; split; [reflexivity|exact Hi]|].
-  destruct (buf s) as [|b0 br] eqn:Ebuf; [intro H; inversion H; subst; rewrite app_nil_r; split; [reflexivity|exact Hi]|].
-  destruct (write_chunk e done (b0 :: br) s) as [[[fr1 n] s1] l1] eqn:Ew.
-  destruct (head_chunk _ _ _ _ _ _ _ _ _ Hh Hi Ew) as [A [B C]].
-  destruct (n <? blen (b0 :: br)); intro H; inversion H; subst; (split; [reflexivity|]);
+  destruct (berr s) eqn:Eb; [intro H; inversion H; subst; rewrite app_nil_r; exact Hi|].
+  destruct (buf s) as [|b0 br] eqn:Ebuf; [intro H; inversion H; subst; rewrite app_nil_r; exact Hi|].
+  destruct (write_chunk e done (b0 :: br) s) as [[fr1 n] s1] eqn:Ew.
+  destruct (head_chunk _ _ _ _ _ _ _ _ Hh Hi Ew) as [B C].
+  destruct (n <? blen (b0 :: br)); intro H; inversion H; subst;
     split; simpl; rewrite ?C in *; try exact B; intros _; reflexivity.
 Qed.
 
@@ -233,34 +227,33 @@ Proof.
   - destruct ((e_bsz e - blen (buf s) <? blen p) && negb (berr s)) eqn:Ec.
     + apply andb_true_iff in Ec. destruct Ec as [_ Ec]. apply negb_true_iff in Ec.
       destruct (buf s) as [|b0 br] eqn:Ebuf.
-      * destruct (write_chunk e false p s) as [[[fr1 n] s1] l1] eqn:Ew.
-        destruct (head_chunk _ _ _ _ _ _ _ _ _ Hh Hi Ew) as [A [B C]].
-        destruct (write_chunk_state _ _ _ _ _ _ _ _ Ew) as [_ [_ D]].
+      * destruct (write_chunk e false p s) as [[fr1 n] s1] eqn:Ew.
+        destruct (head_chunk _ _ _ _ _ _ _ _ Hh Hi Ew) as [B C].
         apply IH. split; [exact B|intros _; exact C].
       * destruct (bw_flush e false (set_buf s ((b0 :: br) ++ firstn (Z.to_nat (e_bsz e - blen (b0 :: br))) p) false))
-          as [[fr1 s1] l1] eqn:Ef.
+          as [fr1 s1] eqn:Ef.
         assert (Hi' : head_inv (set_buf s ((b0 :: br) ++ firstn (Z.to_nat (e_bsz e - blen (b0 :: br))) p) false) acc)
           by (destruct Hi as [A B]; split; simpl; [exact A|discriminate]).
-        destruct (head_flush _ _ _ _ _ _ _ Hh Hi' Ef) as [_ B]. apply IH. exact B.
+        apply IH. apply (head_flush _ _ _ _ _ _ Hh Hi' Ef).
     + destruct (berr s) eqn:Eb; intro H; inversion H; subst; [exact Hi|].
       destruct Hi as [A B]. split; simpl; [exact A|discriminate].
 Qed.
 
 (* ---------- scripts ---------- *)
-Lemma do_flush_notdone e s fr s' lost :
-  e_head e = false -> berr s = false -> do_flush e false s = (fr, s', lost) -> no_end fr /\ berr s' = false.
+Lemma do_flush_notdone e s fr s' :
+  e_head e = false -> berr s = false -> do_flush e false s = (fr, s') -> no_end fr /\ berr s' = false.
 Proof.
   intros Hh Hb. unfold do_flush. destruct (buf s) eqn:Ebuf.
-  - destruct (write_chunk e false [] s) as [[[fr1 n] s1] l1] eqn:Ew. intro H; inversion H; subst.
-    destruct (write_chunk_notdone _ _ _ _ _ _ _ Hh Ew) as [A _].
-    destruct (write_chunk_state _ _ _ _ _ _ _ _ Ew) as [_ [_ D]]. split; [exact A|rewrite D; exact Hb].
+  - destruct (write_chunk e false [] s) as [[fr1 n] s1] eqn:Ew. intro H; inversion H; subst.
+    destruct (write_chunk_notdone _ _ _ _ _ _ Hh Ew) as [A _].
+    destruct (write_chunk_state _ _ _ _ _ _ _ Ew) as [_ [_ D]]. split; [exact A|rewrite D; exact Hb].
   - apply bw_flush_notdone; assumption.
 Qed.
 
 Lemma step_notdone e o s fr s' res :
   e_head e = false -> berr s = false -> step e o s = (fr, s', res) -> no_end fr /\ berr s' = false.
 Proof.
-  intros Hh Hb. destruct o; simpl.
+  intros Hh Hb. destruct o; cbn [step]; cbv zeta.
   - intro H; inversion H; subst. split; [apply no_end_nil|exact Hb].
   - intro H; inversion H; subst. split; [apply no_end_nil|exact Hb].
   - intro H; inversion H; subst. split; [apply no_end_nil|rewrite wh_berr; exact Hb].
@@ -273,7 +266,7 @@ Proof.
       [|intro H; inversion H; subst; split; [apply no_end_nil|simpl; rewrite wh_berr; exact Hb]].
     intro H; inversion H; subst.
     eapply (bw_write_notdone e Hh); [| |exact Ew]; [simpl; rewrite wh_berr; exact Hb|apply no_end_nil].
-  - destruct (do_flush e false s) as [[fr1 s1] l1] eqn:Ef. intro H; inversion H; subst.
+  - destruct (do_flush e false s) as [fr1 s1] eqn:Ef. intro H; inversion H; subst.
     eapply do_flush_notdone; eassumption.
 Qed.
 
@@ -288,27 +281,37 @@ Proof.
     destruct (IH _ _ _ _ B Er) as [C D]. split; [apply no_end_app; assumption|exact D].
 Qed.
 
-Lemma head_inv_hdr s acc h : head_inv s acc -> head_inv (set_hh s h) acc.
-Proof. intro H. exact H. Qed.
-
-Lemma do_flush_head e done s acc fr s' lost :
-  e_head e = true -> head_inv s acc -> do_flush e done s = (fr, s', lost) ->
-  lost = false /\ head_inv s' (acc ++ fr).
+Lemma do_flush_head e done s acc fr s' :
+  e_head e = true -> head_inv s acc -> do_flush e done s = (fr, s') -> head_inv s' (acc ++ fr).
 Proof.
   intros Hh Hi. unfold do_flush. destruct (buf s) eqn:Ebuf.
-  - destruct (write_chunk e done [] s) as [[[fr1 n] s1] l1] eqn:Ew. intro H; inversion H; subst.
-    destruct (head_chunk _ _ _ _ _ _ _ _ _ Hh Hi Ew) as [A [B C]]. split; [exact A|].
-    split; [exact B|intros _; exact C].
+  - destruct (write_chunk e done [] s) as [[fr1 n] s1] eqn:Ew. intro H; inversion H; subst.
+    destruct (head_chunk _ _ _ _ _ _ _ _ Hh Hi Ew) as [B C]. split; [exact B|intros _; exact C].
   - apply head_flush; assumption.
 Qed.
 
 Lemma wh_head_inv e c s acc : head_inv s acc -> head_inv (write_header e c s) acc.
 Proof. intros [A B]. split; rewrite ?wh_sentH, ?wh_berr; assumption. Qed.
 
+Lemma bw_write_acc e : forall fuel p s0 a0 fr0 s0', bw_write fuel e p s0 a0 = Some (fr0, s0') ->
+  forall pre, bw_write fuel e p s0 (pre ++ a0) = Some (pre ++ fr0, s0').
+Proof.
+  induction fuel as [|f IHf]; intros p0 s0 a0 fr0 s0' Hw pre; simpl in *.
+  - destruct ((e_bsz e - blen (buf s0) <? blen p0) && negb (berr s0)); [discriminate|].
+    destruct (berr s0); inversion Hw; subst; reflexivity.
+  - destruct ((e_bsz e - blen (buf s0) <? blen p0) && negb (berr s0)).
+    + destruct (buf s0).
+      * destruct (write_chunk e false p0 s0) as [[x1 x2] x3]. specialize (IHf _ _ _ _ _ Hw pre).
+        rewrite app_assoc in IHf. exact IHf.
+      * destruct (bw_flush e false _) as [x1 x2]. specialize (IHf _ _ _ _ _ Hw pre).
+        rewrite app_assoc in IHf. exact IHf.
+    + destruct (berr s0); inversion Hw; subst; reflexivity.
+Qed.
+
 Lemma step_head e o s acc fr s' res :
   e_head e = true -> head_inv s acc -> step e o s = (fr, s', res) -> head_inv s' (acc ++ fr).
 Proof.
-  intros Hh Hi. destruct o; simpl.
+  intros Hh Hi. destruct o; cbn [step]; cbv zeta.
   - intro H; inversion H; subst. rewrite app_nil_r. exact Hi.
   - intro H; inversion H; subst. rewrite app_nil_r. exact Hi.
   - intro H; inversion H; subst. rewrite app_nil_r. apply wh_head_inv, Hi.
@@ -320,20 +323,9 @@ Proof.
       destruct (bw_write fuel_write e p S []) as [[fr1 s1]|] eqn:Ew end;
       [|intro H; inversion H; subst; rewrite app_nil_r; apply (wh_head_inv e 200 s acc Hi)].
     intro H; inversion H; subst.
-    (* bw_write started from acc = []: replay it from acc *)
-    assert (G : forall fuel p s0 a0 fr0 s0', bw_write fuel e p s0 a0 = Some (fr0, s0') ->
-                forall pre, bw_write fuel e p s0 (pre ++ a0) = Some (pre ++ fr0, s0')).
-    { induction fuel as [|f IHf]; intros p0 s0 a0 fr0 s0' Hw pre; simpl in *.
-      - destruct ((e_bsz e - blen (buf s0) <? blen p0) && negb (berr s0)); [discriminate|].
-        destruct (berr s0); inversion Hw; subst; reflexivity.
-      - destruct ((e_bsz e - blen (buf s0) <? blen p0) && negb (berr s0)).
-        + destruct (buf s0).
-          * destruct (write_chunk e false p0 s0) as [[[x1 x2] x3] x4]. rewrite <- app_assoc. apply IHf. exact Hw.
-          * destruct (bw_flush e false _) as [[x1 x2] x3]. rewrite <- app_assoc. apply IHf. exact Hw.
-        + destruct (berr s0); inversion Hw; subst; reflexivity. }
-    specialize (G _ _ _ _ _ _ Ew acc). rewrite app_nil_r in G.
+    pose proof (bw_write_acc e _ _ _ _ _ _ Ew acc) as G. rewrite app_nil_r in G.
     eapply (head_write e Hh); [|exact G]. apply (wh_head_inv e 200 s acc Hi).
-  - destruct (do_flush e false s) as [[fr1 s1] l1] eqn:Ef. intro H; inversion H; subst.
+  - destruct (do_flush e false s) as [fr1 s1] eqn:Ef. intro H; inversion H; subst.
     eapply do_flush_head; eassumption.
 Qed.
 
@@ -348,44 +340,895 @@ Proof.
 Qed.
 
 (* ---------- the headline theorem ---------- *)
-Theorem end_stream_exactly_once_and_last e ops fr res s lost :
-  run_handler e ops = (fr, res, s, lost) ->
-  (lost = false -> ends_once fr) /\ (lost = true -> no_end fr /\ e_head e = false).
+Theorem end_stream_exactly_once_and_last e ops : ends_once (frames_of e ops).
 Proof.
-  unfold run_handler.
+  unfold frames_of, run_handler.
   destruct (run_ops e ops rws0) as [[fr1 s1] res1] eqn:Er.
-  destruct (do_flush e true s1) as [[fr2 s2] l2] eqn:Ef.
-  intro H; inversion H; subst. clear H.
+  destruct (do_flush e true s1) as [fr2 s2] eqn:Ef. simpl.
   destruct (e_head e) eqn:Hh.
   - (* HEAD *)
     assert (Hi0 : head_inv rws0 []) by (split; simpl; [reflexivity|discriminate]).
-    pose proof (run_ops_head e Hh ops rws0 [] fr1 s1 res Hi0 Er) as Hi1. simpl in Hi1.
-    destruct (do_flush_head _ _ _ _ _ _ _ Hh Hi1 Ef) as [A [B C]]. subst lost.
-    split; [intros _|discriminate].
-    assert (Hs : sentH s = true).
+    pose proof (run_ops_head e Hh ops rws0 [] fr1 s1 res1 Hi0 Er) as Hi1. simpl in Hi1.
+    destruct (do_flush_head _ _ _ _ _ _ Hh Hi1 Ef) as [B C].
+    assert (Hs : sentH s2 = true).
     { (* the final flush either calls write_chunk (sentH becomes true) or finds the sticky error (sentH already true) *)
-      unfold do_flush in Ef. destruct (buf s1) eqn:Ebuf.
-      - destruct (write_chunk e true [] s1) as [[[x1 x2] x3] x4] eqn:Ew. inversion Ef; subst.
-        destruct (write_chunk_state _ _ _ _ _ _ _ _ Ew) as [D _]. exact D.
+      unfold do_flush in Ef. destruct (buf s1) as [|z0 l0] eqn:Ebuf.
+      - destruct (write_chunk e true [] s1) as [[x1 x2] x3] eqn:Ew. inversion Ef; subst.
+        destruct (write_chunk_state _ _ _ _ _ _ _ Ew) as [D _]. exact D.
       - unfold bw_flush in Ef. rewrite Ebuf in Ef. destruct (berr s1) eqn:Eb.
-        + inversion Ef; subst. destruct Hi1 as [_ D]. apply D. reflexivity.
-        + destruct (write_chunk e true (z :: l) s1) as [[[x1 x2] x3] x4] eqn:Ew.
-          destruct (write_chunk_state _ _ _ _ _ _ _ _ Ew) as [D _].
-          destruct (x2 <? blen (z :: l)); inversion Ef; subst; simpl; exact D. }
+        + inversion Ef; subst. destruct Hi1 as [_ D]. apply D. exact Eb.
+        + destruct (write_chunk e true (z0 :: l0) s1) as [[x1 x2] x3] eqn:Ew.
+          destruct (write_chunk_state _ _ _ _ _ _ _ Ew) as [D _].
+          destruct (x2 <? blen (z0 :: l0)); inversion Ef; subst; simpl; exact D. }
     rewrite Hs in B. destruct B as [fl B]. exists [], (FH true fl). rewrite B.
     split; [reflexivity|]. split; [apply no_end_nil|reflexivity].
   - (* GET *)
-    destruct (run_ops_notdone e Hh ops rws0 fr1 s1 res eq_refl Er) as [A B].
-    assert (Hd : if lost then no_end fr2 else ends_once fr2).
-    { unfold do_flush in Ef. destruct (buf s1) eqn:Ebuf.
-      - destruct (write_chunk e true [] s1) as [[[x1 x2] x3] x4] eqn:Ew. inversion Ef; subst.
-        apply (write_chunk_done _ _ _ _ _ _ _ Hh Ew).
+    destruct (run_ops_notdone e Hh ops rws0 fr1 s1 res1 eq_refl Er) as [A B].
+    assert (Hd : ends_once fr2).
+    { unfold do_flush in Ef. destruct (buf s1) as [|z0 l0] eqn:Ebuf.
+      - destruct (write_chunk e true [] s1) as [[x1 x2] x3] eqn:Ew. inversion Ef; subst.
+        apply (write_chunk_done _ _ _ _ _ _ Hh Ew).
       - unfold bw_flush in Ef. rewrite B, Ebuf in Ef.
-        destruct (write_chunk e true (z :: l) s1) as [[[x1 x2] x3] x4] eqn:Ew.
-        pose proof (write_chunk_done _ _ _ _ _ _ _ Hh Ew) as Hd.
-        destruct (x2 <? blen (z :: l)); inversion Ef; subst; exact Hd. }
-    split; intro Hl; subst lost.
-    + destruct Hd as [pre [l [E [Hp Hl]]]]. exists (fr1 ++ pre), l. rewrite E, app_assoc.
-      split; [reflexivity|]. split; [apply no_end_app; assumption|exact Hl].
-    + split; [apply no_end_app; assumption|reflexivity].
+        destruct (write_chunk e true (z0 :: l0) s1) as [[x1 x2] x3] eqn:Ew.
+        pose proof (write_chunk_done _ _ _ _ _ _ Hh Ew) as Hd.
+        destruct (x2 <? blen (z0 :: l0)); inversion Ef; subst; exact Hd. }
+    destruct Hd as [pre [l [E [Hp Hl]]]]. exists (fr1 ++ pre), l. rewrite E, app_assoc.
+    split; [reflexivity|]. split; [apply no_end_app; assumption|exact Hl].
+Qed.
+
+(* witnesses *)
+Definition b_Trailer := s_Trailer.
+Definition b_Foo := [70;111;111].
+Definition b_hi := [104;105].
+Definition b_Connection := [67;111;110;110;101;99;116;105;111;110].
+Definition b_close := [99;108;111;115;101].
+Definition env_get := mkE false 4096 [b_Connection].
+
+(* Trailer: Foo declared, Foo never set (the class that used to lose END_STREAM): the stream now ends with an empty
+   DATA frame *)
+Lemma unset_trailer_witness :
+  let ops := [OSet b_Trailer b_Foo; OWrite b_hi] in
+  exists fl, frames_of env_get ops = [FH false fl; FD false b_hi; FD true []].
+Proof. vm_compute. eexists. reflexivity. Qed.
+
+(* the same handler that also sets Foo ends with a trailers HEADERS frame carrying END_STREAM *)
+Lemma trailers_witness :
+  let ops := [OSet b_Trailer b_Foo; OWrite b_hi; OSet b_Foo b_close] in
+  exists fl, frames_of env_get ops = [FH false fl; FD false b_hi; FH true [(to_lower b_Foo, b_close)]].
+Proof. vm_compute. eexists. reflexivity. Qed.
+
+(* a declared trailer named Connection (used to be sent) is dropped *)
+Lemma conn_trailer_witness :
+  let ops := [OSet b_Trailer b_Connection; OWrite b_hi; OSet b_Connection b_close] in
+  exists fl, frames_of env_get ops = [FH false fl; FD false b_hi; FD true []]
+  /\ mem_bytes (to_lower b_Connection) (map fst fl) = false.
+Proof. vm_compute. eexists. split; reflexivity. Qed.
+
+(* ---------- body_exact: DATA payloads = the bytes whose Write returned nil ---------- *)
+Definition data_of (fs : list frame) : bytes := concat (map f_data fs).
+Lemma data_app a b : data_of (a ++ b) = data_of a ++ data_of b.
+Proof. unfold data_of. rewrite map_app, concat_app. reflexivity. Qed.
+
+Lemma blen_nil p : blen p = 0 -> p = [].
+Proof. unfold blen. destruct p; [reflexivity|simpl; lia]. Qed.
+
+Lemma body_frames_data e done p s1 fr s2 :
+  body_frames e done p s1 = (fr, s2) -> data_of fr = p.
+Proof.
+  unfold body_frames.
+  destruct (if done then promote (hh s1) (trailers s1) else (hh s1, trailers s1)) as [h2 tr2].
+  set (es := done && negb match tr2 with [] => false | _ => true end).
+  assert (Hfr2 : data_of (if (0 <? blen p) || es then [FD es p] else []) = p).
+  { destruct (0 <? blen p) eqn:E; simpl.
+    - unfold data_of. simpl. apply app_nil_r.
+    - apply Z.ltb_ge in E. assert (p = []) by (apply blen_nil; unfold blen in *; lia). subst p.
+      destruct es; reflexivity. }
+  destruct (done && match tr2 with [] => false | _ => true end).
+  - destruct (encode_trailers (e_hop e) h2 tr2); intro H; inversion H; subst;
+      rewrite data_app, Hfr2; unfold data_of; simpl; rewrite app_nil_r; reflexivity.
+  - intro H; inversion H; subst. exact Hfr2.
+Qed.
+
+Lemma write_chunk_data e done p s fr n s' :
+  e_head e = false -> write_chunk e done p s = (fr, n, s') -> data_of fr = p.
+Proof.
+  intro Hh. unfold write_chunk. rewrite Hh.
+  set (s0 := write_header e 200 s).
+  destruct (sentH s0) eqn:Es0.
+  - cbn iota beta.
+    destruct ((blen p =? 0) && negb done) eqn:Ec.
+    + intro H; inversion H; subst. apply andb_true_iff in Ec. destruct Ec as [Ec _]. apply Z.eqb_eq in Ec.
+      symmetry. apply blen_nil, Ec.
+    + destruct (body_frames e done p s0) as [fr2 s2] eqn:Eb. intro H; inversion H; subst.
+      apply (body_frames_data _ _ _ _ _ _ Eb).
+  - destruct (first_headers e done p s0) as [[f s1] es] eqn:Ef.
+    destruct (first_headers_shape _ _ _ _ _ _ _ Ef) as [[fl Hf] [_ [_ [_ Hes]]]]. subst f.
+    destruct es.
+    + intro H; inversion H; subst. rewrite Hh, orb_false_r in Hes. symmetry in Hes.
+      apply andb_true_iff in Hes. destruct Hes as [_ Hes]. apply Z.eqb_eq in Hes. symmetry. apply blen_nil, Hes.
+    + destruct ((blen p =? 0) && negb done) eqn:Ec.
+      * intro H; inversion H; subst. apply andb_true_iff in Ec. destruct Ec as [Ec _]. apply Z.eqb_eq in Ec.
+        symmetry. apply blen_nil, Ec.
+      * destruct (body_frames e done p s1) as [fr2 s2] eqn:Eb. intro H; inversion H; subst.
+        change (data_of ([FH false fl] ++ fr2) = p). rewrite data_app. apply (body_frames_data _ _ _ _ _ _ Eb).
+Qed.
+
+Lemma bw_flush_data e done s fr s' :
+  e_head e = false -> berr s = false -> bw_flush e done s = (fr, s') ->
+  data_of fr = buf s /\ (done = false -> buf s' = [] /\ berr s' = false).
+Proof.
+  intros Hh Hb. unfold bw_flush. rewrite Hb.
+  destruct (buf s) as [|b0 br] eqn:Ebuf.
+  - intro H; inversion H; subst. split; [reflexivity|]. intros _. split; assumption.
+  - destruct (write_chunk e done (b0 :: br) s) as [[fr1 n] s1] eqn:Ew.
+    pose proof (write_chunk_data _ _ _ _ _ _ _ Hh Ew) as Hd.
+    destruct (n <? blen (b0 :: br)) eqn:En; intro H; inversion H; subst; (split; [exact Hd|]).
+    + intros ->. destruct (write_chunk_notdone _ _ _ _ _ _ Hh Ew) as [_ B]. rewrite B, Z.ltb_irrefl in En. discriminate.
+    + intros _. split; reflexivity.
+Qed.
+
+Lemma skipn_blen p : skipn (Z.to_nat (blen p)) p = [].
+Proof. unfold blen. rewrite Nat2Z.id. apply skipn_all. Qed.
+
+Lemma bw_write_data e : e_head e = false -> forall fuel p s acc fr s',
+  berr s = false -> bw_write fuel e p s acc = Some (fr, s') ->
+  data_of fr ++ buf s' = data_of acc ++ buf s ++ p.
+Proof.
+  intro Hh. induction fuel as [|f IH]; intros p s acc fr s' Hb; simpl; rewrite Hb; simpl.
+  - destruct (e_bsz e - blen (buf s) <? blen p); [discriminate|].
+    intro H; inversion H; subst. reflexivity.
+  - destruct (e_bsz e - blen (buf s) <? blen p).
+    + simpl. destruct (buf s) as [|b0 br] eqn:Ebuf.
+      * destruct (write_chunk e false p s) as [[fr1 n] s1] eqn:Ew.
+        destruct (write_chunk_notdone _ _ _ _ _ _ Hh Ew) as [_ B].
+        destruct (write_chunk_state _ _ _ _ _ _ _ Ew) as [_ [C D]].
+        pose proof (write_chunk_data _ _ _ _ _ _ _ Hh Ew) as Hd.
+        intro Hw. apply IH in Hw; [|rewrite D; exact Hb].
+        rewrite Hw, data_app, Hd, C, Ebuf, B, skipn_blen. simpl. rewrite !app_nil_r. reflexivity.
+      * set (n := Z.to_nat (e_bsz e - blen (b0 :: br))).
+        destruct (bw_flush e false (set_buf s ((b0 :: br) ++ firstn n p) false)) as [fr1 s1] eqn:Ef.
+        destruct (bw_flush_data e false _ fr1 s1 Hh (eq_refl : berr (set_buf s _ false) = false) Ef) as [Hd Hs].
+        destruct (Hs eq_refl) as [Hs1 Hs2]. simpl in Hd.
+        intro Hw. apply IH in Hw; [|exact Hs2].
+        rewrite Hw, data_app, Hd, Hs1. simpl.
+        rewrite <- !app_assoc. simpl. rewrite <- app_assoc, firstn_skipn. reflexivity.
+    + simpl. intro H; inversion H; subst. simpl. reflexivity.
+Qed.
+
+(* state + frames + results so far, against the payloads of the Write operations so far *)
+Lemma step_data e o s fr s' res :
+  e_head e = false -> berr s = false -> step e o s = (fr, s', res) ->
+  data_of fr ++ buf s' = buf s ++ accepted (write_payloads [o]) res
+  /\ length res = length (write_payloads [o]).
+Proof.
+  intros Hh Hb. destruct o; cbn [step]; cbv zeta.
+  - intro H; inversion H; subst. simpl. rewrite app_nil_r. split; reflexivity.
+  - intro H; inversion H; subst. simpl. rewrite app_nil_r. split; reflexivity.
+  - intro H; inversion H; subst. simpl. rewrite wh_buf, app_nil_r. split; reflexivity.
+  - destruct (negb (body_allowed (status (write_header e 200 s))));
+      [intro H; inversion H; subst; simpl; rewrite wh_buf, !app_nil_r; split; reflexivity|].
+    match goal with |- context [if ?c then _ else _] => destruct c end;
+      [intro H; inversion H; subst; simpl; rewrite wh_buf, !app_nil_r; split; reflexivity|].
+    match goal with |- context [bw_write fuel_write e p ?S []] =>
+      destruct (bw_write fuel_write e p S []) as [[fr1 s1]|] eqn:Ew end;
+      [|intro H; inversion H; subst; simpl; rewrite wh_buf, !app_nil_r; split; reflexivity].
+    intro H; inversion H; subst.
+    assert (Hb' : berr (set_wroteB (write_header e 200 s) (wroteB (write_header e 200 s) + blen p)) = false)
+      by (simpl; rewrite wh_berr; exact Hb).
+    pose proof (bw_write_data e Hh _ _ _ _ _ _ Hb' Ew) as Hd.
+    destruct (bw_write_notdone e Hh _ _ _ _ _ _ Hb' no_end_nil Ew) as [_ Hbe]. rewrite Hbe.
+    simpl in *. rewrite wh_buf in Hd. rewrite Hd, !app_nil_r. split; reflexivity.
+  - destruct (do_flush e false s) as [fr1 s1] eqn:Ef. intro H; inversion H; subst. simpl. rewrite app_nil_r.
+    split; [|reflexivity].
+    unfold do_flush in Ef. destruct (buf s) as [|z0 l0] eqn:Ebuf.
+    + destruct (write_chunk e false [] s) as [[x1 x2] x3] eqn:Ew. inversion Ef; subst.
+      destruct (write_chunk_state _ _ _ _ _ _ _ Ew) as [_ [C _]].
+      rewrite (write_chunk_data _ _ _ _ _ _ _ Hh Ew), C, Ebuf. reflexivity.
+    + destruct (bw_flush_data _ _ _ _ _ Hh Hb Ef) as [Hd Hs]. destruct (Hs eq_refl) as [Hs1 _].
+      rewrite Hd, Hs1, Ebuf, app_nil_r. reflexivity.
+Qed.
+
+Lemma accepted_app w1 r1 w2 r2 :
+  length r1 = length w1 -> accepted (w1 ++ w2) (r1 ++ r2) = accepted w1 r1 ++ accepted w2 r2.
+Proof.
+  revert r1. induction w1 as [|w w1 IH]; intros [|r r1] Hl; simpl in *; try discriminate; [reflexivity|].
+  rewrite IH by lia. rewrite app_assoc. reflexivity.
+Qed.
+
+Lemma run_ops_data e : e_head e = false -> forall ops s fr s' res,
+  berr s = false -> run_ops e ops s = (fr, s', res) ->
+  data_of fr ++ buf s' = buf s ++ accepted (write_payloads ops) res
+  /\ length res = length (write_payloads ops).
+Proof.
+  intro Hh. induction ops as [|o r IH]; intros s fr s' res Hb; simpl.
+  - intro H; inversion H; subst. simpl. rewrite app_nil_r. split; reflexivity.
+  - destruct (step e o s) as [[fr1 s1] res1] eqn:Es.
+    destruct (run_ops e r s1) as [[fr2 s2] res2] eqn:Er. intro H; inversion H; subst.
+    destruct (step_notdone _ _ _ _ _ _ Hh Hb Es) as [_ B].
+    destruct (step_data _ _ _ _ _ _ Hh Hb Es) as [D1 L1].
+    destruct (IH _ _ _ _ B Er) as [D2 L2].
+    change (write_payloads (o :: r)) with (write_payloads [o] ++ write_payloads r) in *.
+    simpl in L1, D1. rewrite app_nil_r in L1, D1.
+    split; [|rewrite !app_length; lia].
+    rewrite accepted_app by exact L1.
+    rewrite data_app, <- app_assoc, D2, app_assoc, D1, <- app_assoc. reflexivity.
+Qed.
+
+Theorem body_exact e ops fr res s :
+  run_handler e ops = (fr, res, s) ->
+  length res = length (write_payloads ops) /\
+  data_of fr = if e_head e then [] else accepted (write_payloads ops) res.
+Proof.
+  unfold run_handler.
+  destruct (run_ops e ops rws0) as [[fr1 s1] res1] eqn:Er.
+  destruct (do_flush e true s1) as [fr2 s2] eqn:Ef.
+  intro H; inversion H; subst. clear H.
+  destruct (e_head e) eqn:Hh.
+  - (* HEAD: the only frame is HEADERS *)
+    pose proof (end_stream_exactly_once_and_last e ops) as He. unfold frames_of, run_handler in He.
+    rewrite Er, Ef in He. simpl in He.
+    assert (Hi0 : head_inv rws0 []) by (split; simpl; [reflexivity|discriminate]).
+    pose proof (run_ops_head e Hh ops rws0 [] fr1 s1 res Hi0 Er) as Hi1. simpl in Hi1.
+    destruct (do_flush_head _ _ _ _ _ _ Hh Hi1 Ef) as [B _].
+    split.
+    + (* results: one per Write, independent of the request method *)
+      clear -Er. revert Er. generalize rws0. revert fr1 s1 res.
+      induction ops as [|o r IH]; intros fr1 s1 res s0; simpl.
+      * intro H; inversion H; reflexivity.
+      * destruct (step e o s0) as [[f1 t1] r1] eqn:Es. destruct (run_ops e r t1) as [[f2 t2] r2] eqn:Er2.
+        intro H; inversion H; subst. rewrite app_length. rewrite (IH _ _ _ _ Er2).
+        change (write_payloads (o :: r)) with (write_payloads [o] ++ write_payloads r). rewrite app_length.
+        f_equal. destruct o; cbn [step] in Es; cbv zeta in Es.
+        -- inversion Es; reflexivity.
+        -- inversion Es; reflexivity.
+        -- inversion Es; reflexivity.
+        -- destruct (negb (body_allowed (status (write_header e 200 s0)))); [inversion Es; reflexivity|].
+           match type of Es with context [if ?c then _ else _] => destruct c end; [inversion Es; reflexivity|].
+           match type of Es with context [bw_write fuel_write e p ?S []] =>
+             destruct (bw_write fuel_write e p S []) as [[x1 x2]|] end; inversion Es; reflexivity.
+        -- destruct (do_flush e false s0) as [x1 x2]. inversion Es; reflexivity.
+    + destruct (sentH s); [destruct B as [fl B]; rewrite B; reflexivity|rewrite B; reflexivity].
+  - destruct (run_ops_notdone e Hh ops rws0 fr1 s1 res eq_refl Er) as [_ B].
+    destruct (run_ops_data e Hh ops rws0 fr1 s1 res eq_refl Er) as [D L]. simpl in D.
+    split; [exact L|]. rewrite data_app, <- D. f_equal.
+    unfold do_flush in Ef. destruct (buf s1) as [|z0 l0] eqn:Ebuf.
+    + destruct (write_chunk e true [] s1) as [[x1 x2] x3] eqn:Ew. inversion Ef; subst.
+      apply (write_chunk_data _ _ _ _ _ _ _ Hh Ew).
+    + destruct (bw_flush_data _ _ _ _ _ Hh B Ef) as [Hd _]. rewrite Hd, Ebuf. reflexivity.
+Qed.
+
+(* ---------- connection_specific_removed ---------- *)
+Ltac bsolve :=
+  repeat match goal with
+         | |- context [if ?b then _ else _] => destruct b eqn:?
+         | H : context [if ?b then _ else _] |- _ => destruct b eqn:?
+         end;
+  repeat match goal with
+         | H : (_ && _) = true |- _ => apply andb_true_iff in H; destruct H
+         | H : (_ && _) = false |- _ => apply andb_false_iff in H; destruct H
+         | H : (_ <=? _) = true |- _ => apply Z.leb_le in H
+         | H : (_ <=? _) = false |- _ => apply Z.leb_gt in H
+         end; try lia; try reflexivity.
+
+Lemma upper_lower c : upper_byte (lower_byte c) = upper_byte c.
+Proof. unfold upper_byte, lower_byte. bsolve. Qed.
+Lemma lower_lower c : lower_byte (lower_byte c) = lower_byte c.
+Proof. unfold lower_byte. bsolve. Qed.
+Lemma upper_upper c : upper_byte (upper_byte c) = upper_byte c.
+Proof. unfold upper_byte. bsolve. Qed.
+Lemma lower_upper c : lower_byte (upper_byte c) = lower_byte c.
+Proof. unfold upper_byte, lower_byte. bsolve. Qed.
+
+Lemma is_tchar_lower c : is_tchar (lower_byte c) = is_tchar c.
+Proof.
+  unfold lower_byte. destruct ((65 <=? c) && (c <=? 90)) eqn:E; [|reflexivity].
+  apply andb_true_iff in E. destruct E as [E1 E2]. apply Z.leb_le in E1. apply Z.leb_le in E2.
+  unfold is_tchar, is_upper, is_lower.
+  assert (A : (65 <=? c) && (c <=? 90) = true) by (apply andb_true_iff; split; apply Z.leb_le; lia).
+  assert (B : (97 <=? c + 32) && (c + 32 <=? 122) = true) by (apply andb_true_iff; split; apply Z.leb_le; lia).
+  rewrite A, B. simpl. rewrite orb_true_r. reflexivity.
+Qed.
+Lemma is_tchar_upper c : is_tchar (upper_byte c) = is_tchar c.
+Proof.
+  unfold upper_byte. destruct ((97 <=? c) && (c <=? 122)) eqn:E; [|reflexivity].
+  apply andb_true_iff in E. destruct E as [E1 E2]. apply Z.leb_le in E1. apply Z.leb_le in E2.
+  unfold is_tchar, is_upper, is_lower.
+  assert (A : (97 <=? c) && (c <=? 122) = true) by (apply andb_true_iff; split; apply Z.leb_le; lia).
+  assert (B : (65 <=? c - 32) && (c - 32 <=? 90) = true) by (apply andb_true_iff; split; apply Z.leb_le; lia).
+  rewrite A, B. simpl. rewrite orb_true_r. reflexivity.
+Qed.
+
+Lemma tchar_to_lower s : forallb is_tchar (to_lower s) = forallb is_tchar s.
+Proof. unfold to_lower. induction s as [|c r IH]; simpl; [reflexivity|]. rewrite is_tchar_lower, IH. reflexivity. Qed.
+
+Lemma canon_go_lower s : forall up, canon_go up (to_lower s) = canon_go up s.
+Proof.
+  unfold to_lower. induction s as [|c r IH]; intro up; simpl; [reflexivity|].
+  destruct up; rewrite ?upper_lower, ?lower_lower, IH; reflexivity.
+Qed.
+
+Lemma canon_go_tchar s : forall up, forallb is_tchar (canon_go up s) = forallb is_tchar s.
+Proof.
+  induction s as [|c r IH]; intro up; simpl; [reflexivity|].
+  destruct up; rewrite ?is_tchar_upper, ?is_tchar_lower, IH; reflexivity.
+Qed.
+Lemma canon_go_idem s : forall up, canon_go up (canon_go up s) = canon_go up s.
+Proof.
+  induction s as [|c r IH]; intro up; simpl; [reflexivity|].
+  destruct up; rewrite ?upper_upper, ?lower_lower, IH; reflexivity.
+Qed.
+
+Definition canonical (k : bytes) : Prop := canon k = k.
+Lemma canon_idem k : canonical (canon k).
+Proof.
+  unfold canonical, canon. destruct (forallb is_tchar k) eqn:E.
+  - rewrite canon_go_tchar, E. apply canon_go_idem.
+  - rewrite E. reflexivity.
+Qed.
+
+Lemma mem_bytes_In k l : mem_bytes k l = true <-> In k l.
+Proof.
+  unfold mem_bytes. rewrite existsb_exists. split.
+  - intros [x [Hx He]]. apply bytes_eqb_eq in He. subst. exact Hx.
+  - intro H. exists k. split; [exact H|apply bytes_eqb_eq; reflexivity].
+Qed.
+
+(* the hop list covers the connection-specific fields (true of HopHeaders) *)
+Definition hop_ok (hop : list bytes) : Prop :=
+  forallb (fun c => mem_bytes (canon c) hop) conn_specific = true.
+
+Lemma conn_specific_tchar c : In c conn_specific -> forallb is_tchar c = true.
+Proof. intro H. repeat (destruct H as [<-|H]; [vm_compute; reflexivity|]). destruct H. Qed.
+
+Lemma not_conn hop k :
+  hop_ok hop -> canonical k -> mem_bytes k hop = false -> mem_bytes (to_lower k) conn_specific = false.
+Proof.
+  intros Hh Hc Hn. destruct (mem_bytes (to_lower k) conn_specific) eqn:E; [|reflexivity].
+  exfalso. apply mem_bytes_In in E.
+  pose proof (conn_specific_tchar _ E) as Ht. rewrite tchar_to_lower in Ht.
+  unfold hop_ok in Hh. rewrite forallb_forall in Hh. specialize (Hh _ E).
+  assert (Hk : canon (to_lower k) = k).
+  { unfold canonical, canon in *. rewrite tchar_to_lower, Ht in *. rewrite canon_go_lower. exact Hc. }
+  rewrite Hk, Hn in Hh. discriminate.
+Qed.
+
+Definition frame_ok (f : frame) : Prop := match f with FH _ fl => fields_ok fl = true | FD _ _ => True end.
+Definition frames_ok (fs : list frame) : Prop := forall f, In f fs -> frame_ok f.
+Lemma frames_ok_nil : frames_ok []. Proof. intros f []. Qed.
+Lemma frames_ok_app a b : frames_ok a -> frames_ok b -> frames_ok (a ++ b).
+Proof. intros Ha Hb f Hf. apply in_app_or in Hf. destruct Hf; auto. Qed.
+Lemma frames_ok_one f : frame_ok f -> frames_ok [f].
+Proof. intros H g [<-|[]]. exact H. Qed.
+
+Lemma fields_ok_app a b : fields_ok (a ++ b) = fields_ok a && fields_ok b.
+Proof. unfold fields_ok. apply forallb_app. Qed.
+
+Lemma valid_name_no_upper k : valid_name k = true -> no_upper k = true.
+Proof.
+  unfold valid_name, no_upper. destruct k as [|c r]; [discriminate|]. intro H.
+  rewrite forallb_forall in *. intros x Hx. specialize (H x Hx).
+  apply andb_true_iff in H. destruct H as [H _]. apply andb_true_iff in H. destruct H as [_ H]. exact H.
+Qed.
+
+Lemma enc_key_ok h k : mem_bytes (to_lower k) conn_specific = false -> fields_ok (enc_key h k) = true.
+Proof.
+  intro Hn. unfold enc_key. destruct (valid_name (to_lower k)) eqn:Ev; [|reflexivity].
+  apply valid_name_no_upper in Ev.
+  assert (Hone : forall v, fields_ok [(to_lower k, v)] = true).
+  { intro v. unfold fields_ok. cbn [forallb fst]. rewrite Ev, Hn. reflexivity. }
+  induction (hget h k) as [|v r IH]; [reflexivity|]. cbn [flat_map].
+  rewrite fields_ok_app, IH, andb_true_r.
+  match goal with |- context [if ?c then _ else _] => destruct c end; [apply Hone|reflexivity].
+Qed.
+
+Lemma encode_ok h keys :
+  (forall k, In k keys -> mem_bytes (to_lower k) conn_specific = false) -> fields_ok (encode_headers h keys) = true.
+Proof.
+  unfold encode_headers. induction keys as [|k r IH]; intro H; [reflexivity|]. simpl.
+  rewrite fields_ok_app, enc_key_ok, IH; [reflexivity| |]; [intros x Hx; apply H; right; exact Hx|apply H; left; reflexivity].
+Qed.
+
+Lemma insert_sorted_In x k l : In x (insert_sorted k l) -> x = k \/ In x l.
+Proof.
+  induction l as [|y r IH]; simpl; [intros [<-|[]]; left; reflexivity|].
+  destruct (bytes_ltb y k); simpl.
+  - intros [<-|H]; [right; left; reflexivity|]. destruct (IH H) as [->|H']; [left; reflexivity|right; right; exact H'].
+  - intros [<-|H]; [left; reflexivity|right; exact H].
+Qed.
+Lemma sort_keys_In x l : In x (sort_keys l) -> In x l.
+Proof.
+  unfold sort_keys. induction l as [|k r IH]; simpl; [intros []|].
+  intro H. apply insert_sorted_In in H. destruct H as [->|H]; [left; reflexivity|right; apply IH, H].
+Qed.
+
+(* state invariant: every key was produced by CanonicalMIMEHeaderKey; the snapshot holds no hop key *)
+Definition st_ok (hop : list bytes) (s : rws) : Prop :=
+  Forall canonical (hkeys (hh s))
+  /\ Forall (fun k => canonical k /\ mem_bytes k hop = false) (hkeys (snap s))
+  /\ Forall canonical (trailers s).
+
+Lemma hput_keys h k vv x : In x (hkeys (hput h k vv)) -> x = k \/ In x (hkeys h).
+Proof.
+  unfold hkeys. induction h as [|[k' v'] r IH]; simpl; [intros [<-|[]]; left; reflexivity|].
+  destruct (bytes_eqb k k') eqn:E; simpl.
+  - intros [<-|H]; [left; reflexivity|right; right; exact H].
+  - intros [<-|H]; [right; left; reflexivity|]. destruct (IH H) as [->|H']; [left; reflexivity|right; right; exact H'].
+Qed.
+Lemma hput_canon h k vv : Forall canonical (hkeys h) -> canonical k -> Forall canonical (hkeys (hput h k vv)).
+Proof.
+  intros Hh Hk. apply Forall_forall. intros x Hx. apply hput_keys in Hx. destruct Hx as [->|Hx]; [exact Hk|].
+  rewrite Forall_forall in Hh. apply Hh, Hx.
+Qed.
+Lemma filter_keys (f : bytes * list bytes -> bool) h x : In x (hkeys (filter f h)) -> In x (hkeys h) /\ exists vv, f (x, vv) = true.
+Proof.
+  unfold hkeys. rewrite !in_map_iff. intros [[k vv] [<- Hin]]. apply filter_In in Hin. destruct Hin as [Hin Hf].
+  split; [exists (k, vv); split; [reflexivity|exact Hin]|exists vv; exact Hf].
+Qed.
+
+Lemma write_header_ok e c s : st_ok (e_hop e) s -> st_ok (e_hop e) (write_header e c s).
+Proof.
+  intros [A [B C]]. unfold write_header. destruct (wroteH s); [split; [exact A|split; [exact B|exact C]]|].
+  split; [exact A|]. split; [|exact C]. simpl.
+  destruct (hh s) as [|x r] eqn:Eh; [exact B|]. rewrite <- Eh in *.
+  apply Forall_forall. intros k Hk. unfold clone_header in Hk. apply filter_keys in Hk. destruct Hk as [Hin [vv Hf]].
+  simpl in Hf. apply negb_true_iff in Hf. rewrite Forall_forall in A. split; [apply A, Hin|exact Hf].
+Qed.
+
+Lemma declare_canon tr k : Forall canonical tr -> Forall canonical (declare_trailer tr k).
+Proof.
+  intro H. unfold declare_trailer.
+  destruct (mem_bytes (canon k) [s_TransferEncoding; s_ContentLength; s_Trailer]); [exact H|].
+  destruct (mem_bytes (canon k) tr); [exact H|]. apply Forall_app. split; [exact H|]. constructor; [apply canon_idem|constructor].
+Qed.
+Lemma declare_fold_canon l : forall tr, Forall canonical tr -> Forall canonical (fold_left declare_trailer l tr).
+Proof. induction l as [|k r IH]; intros tr H; simpl; [exact H|]. apply IH, declare_canon, H. Qed.
+Lemma declare_snapshot_canon snp tr : Forall canonical tr -> Forall canonical (declare_from_snapshot snp tr).
+Proof.
+  unfold declare_from_snapshot. generalize (hget snp s_Trailer) as vs. intro vs. revert tr.
+  induction vs as [|v r IH]; intros tr H; simpl; [exact H|]. apply IH, declare_fold_canon, H.
+Qed.
+
+Lemma const_fields_ok :
+  fields_ok [(s_content_type, [])] = true /\ fields_ok [(s_date, [])] = true
+  /\ (forall v, fields_ok [(s_content_length, v)] = true) /\ (forall v, fields_ok [(s_status, v)] = true).
+Proof. repeat split; intros; vm_compute; reflexivity. Qed.
+
+Lemma first_headers_ok e done p s f s1 es :
+  hop_ok (e_hop e) -> st_ok (e_hop e) s -> first_headers e done p s = (f, s1, es) ->
+  frame_ok f /\ st_ok (e_hop e) s1.
+Proof.
+  intros Hhop [A [B C]]. unfold first_headers. cbv zeta.
+  match goal with |- (match ?X with pair _ _ => _ end) = _ -> _ => destruct X as [[snp scl] clen1] eqn:EX end.
+  assert (Hsnp : Forall (fun k => canonical k /\ mem_bytes k (e_hop e) = false) (hkeys snp)).
+  { assert (Hsub : forall x, In x (hkeys snp) -> In x (hkeys (snap s))).
+    { destruct (hfirst (snap s) s_ContentLength); [inversion EX; subst; auto|].
+      destruct (parse_int64 (z :: b)) as [n|]; [destruct (0 <=? n)|]; inversion EX; subst;
+        intros x Hx; apply filter_keys in Hx; apply Hx. }
+    apply Forall_forall. intros x Hx. rewrite Forall_forall in B. apply B, Hsub, Hx. }
+  intro H. inversion H; subst. clear H. split.
+  - destruct const_fields_ok as [K1 [K2 [K3 K4]]]. simpl. rewrite !fields_ok_app.
+    assert (E1 : fields_ok (status_field (status s)) = true)
+      by (unfold status_field; destruct (status s =? 0); [reflexivity|apply K4]).
+    assert (E2 : fields_ok (encode_headers snp (sort_keys (hkeys snp))) = true).
+    { apply encode_ok. intros k Hk. apply sort_keys_In in Hk. rewrite Forall_forall in Hsnp.
+      destruct (Hsnp _ Hk) as [Hc Hn]. eapply not_conn; eassumption. }
+    rewrite E1, E2. simpl.
+    repeat match goal with |- context [if ?c then _ else _] => destruct c end;
+      repeat match goal with |- context [match ?c with [] => _ | _ => _ end] => destruct c end;
+      rewrite ?K1, ?K2, ?K3; reflexivity.
+  - split; [exact A|]. split; [exact Hsnp|]. simpl. apply declare_snapshot_canon, C.
+Qed.
+
+Lemma promote_ok h tr :
+  Forall canonical (hkeys h) -> Forall canonical tr ->
+  Forall canonical (hkeys (fst (promote h tr))) /\ Forall canonical (snd (promote h tr)).
+Proof.
+  intros Hh Ht. unfold promote.
+  assert (G : forall l acc, Forall canonical (hkeys (fst acc)) -> Forall canonical (snd acc) ->
+    let r := fold_left (fun (acc : hmap * list bytes) (e : bytes * list bytes) =>
+      let '(k, vv) := e in
+      if is_prefix s_TrailerPrefix k then (hput (fst acc) (canon (skipn 8 k)) vv, declare_trailer (snd acc) (skipn 8 k))
+      else acc) l acc in
+    Forall canonical (hkeys (fst r)) /\ Forall canonical (snd r)).
+  { induction l as [|[k vv] r IH]; intros acc A B; cbn [fold_left]; [split; assumption|].
+    apply IH; destruct (is_prefix s_TrailerPrefix k); cbn [fst snd]; try assumption.
+    - apply hput_canon; [exact A|apply canon_idem].
+    - apply declare_canon, B. }
+  specialize (G h (h, tr) Hh Ht). cbv zeta in G.
+  destruct (fold_left _ h (h, tr)) as [h' tr'] eqn:E. simpl in G. destruct G as [G1 G2]. simpl.
+  split; [exact G1|].
+  destruct tr' as [|a [|b r]]; try exact G2.
+  apply Forall_forall. intros x Hx. apply sort_keys_In in Hx. rewrite Forall_forall in G2. apply G2, Hx.
+Qed.
+
+Lemma body_frames_ok e done p s1 fr s2 :
+  hop_ok (e_hop e) -> st_ok (e_hop e) s1 -> body_frames e done p s1 = (fr, s2) ->
+  frames_ok fr /\ st_ok (e_hop e) s2.
+Proof.
+  intros Hhop [A [B C]]. unfold body_frames.
+  assert (Hp : Forall canonical (hkeys (fst (if done then promote (hh s1) (trailers s1) else (hh s1, trailers s1))))
+            /\ Forall canonical (snd (if done then promote (hh s1) (trailers s1) else (hh s1, trailers s1))))
+    by (destruct done; [apply promote_ok; assumption|split; assumption]).
+  destruct (if done then promote (hh s1) (trailers s1) else (hh s1, trailers s1)) as [h2 tr2]. simpl in Hp.
+  destruct Hp as [P1 P2].
+  assert (Hfr2 : forall es, frames_ok (if (0 <? blen p) || es then [FD es p] else []))
+    by (intro es; destruct ((0 <? blen p) || es); [apply frames_ok_one; exact I|apply frames_ok_nil]).
+  assert (Hst : st_ok (e_hop e) (mkR h2 (wroteH s1) (status s1) (snap s1) (sentH s1) tr2 (sentCL s1) (wroteB s1) (buf s1) (berr s1)))
+    by (split; [exact P1|split; [exact B|exact P2]]).
+  destruct (done && match tr2 with [] => false | _ => true end).
+  - destruct (encode_trailers (e_hop e) h2 tr2) as [|f0 fl] eqn:Ee; intro H; inversion H; subst; (split; [|exact Hst]).
+    + apply frames_ok_app; [apply Hfr2|apply frames_ok_one; exact I].
+    + apply frames_ok_app; [apply Hfr2|apply frames_ok_one]. unfold frame_ok. rewrite <- Ee.
+      unfold encode_trailers. apply encode_ok. intros k Hk. apply filter_In in Hk. destruct Hk as [Hk Hn].
+      apply negb_true_iff in Hn. rewrite Forall_forall in P2. eapply not_conn; [exact Hhop|apply P2, Hk|exact Hn].
+  - intro H; inversion H; subst. split; [apply Hfr2|exact Hst].
+Qed.
+
+Lemma write_chunk_ok e done p s fr n s' :
+  hop_ok (e_hop e) -> st_ok (e_hop e) s -> write_chunk e done p s = (fr, n, s') ->
+  frames_ok fr /\ st_ok (e_hop e) s'.
+Proof.
+  intros Hhop Hs. unfold write_chunk.
+  pose proof (write_header_ok e 200 s Hs) as Hs0. set (s0 := write_header e 200 s) in *.
+  destruct (sentH s0).
+  - cbn iota beta.
+    destruct (e_head e); [intro H; inversion H; subst; split; [apply frames_ok_nil|exact Hs0]|].
+    destruct ((blen p =? 0) && negb done); [intro H; inversion H; subst; split; [apply frames_ok_nil|exact Hs0]|].
+    destruct (body_frames e done p s0) as [fr2 s2] eqn:Eb. intro H; inversion H; subst.
+    apply (body_frames_ok _ _ _ _ _ _ Hhop Hs0 Eb).
+  - destruct (first_headers e done p s0) as [[f s1] es] eqn:Ef.
+    destruct (first_headers_ok _ _ _ _ _ _ _ Hhop Hs0 Ef) as [F1 S1].
+    destruct es; [intro H; inversion H; subst; split; [apply frames_ok_one, F1|exact S1]|].
+    destruct (e_head e); [intro H; inversion H; subst; split; [apply frames_ok_one, F1|exact S1]|].
+    destruct ((blen p =? 0) && negb done); [intro H; inversion H; subst; split; [apply frames_ok_one, F1|exact S1]|].
+    destruct (body_frames e done p s1) as [fr2 s2] eqn:Eb. intro H; inversion H; subst.
+    destruct (body_frames_ok _ _ _ _ _ _ Hhop S1 Eb) as [F2 S2]. split; [|exact S2].
+    apply (frames_ok_app [f] fr2); [apply frames_ok_one, F1|exact F2].
+Qed.
+
+Lemma set_buf_ok hop s b er : st_ok hop s -> st_ok hop (set_buf s b er). Proof. intro H. exact H. Qed.
+
+Lemma bw_flush_ok e done s fr s' :
+  hop_ok (e_hop e) -> st_ok (e_hop e) s -> bw_flush e done s = (fr, s') -> frames_ok fr /\ st_ok (e_hop e) s'.
+Proof.
+  intros Hhop Hs. unfold bw_flush.
+  destruct (berr s); [intro H; inversion H; subst; split; [apply frames_ok_nil|exact Hs]|].
+  destruct (buf s) as [|b0 br]; [intro H; inversion H; subst; split; [apply frames_ok_nil|exact Hs]|].
+  destruct (write_chunk e done (b0 :: br) s) as [[fr1 n] s1] eqn:Ew.
+  destruct (write_chunk_ok _ _ _ _ _ _ _ Hhop Hs Ew) as [F S].
+  destruct (n <? blen (b0 :: br)); intro H; inversion H; subst; split; assumption.
+Qed.
+
+Lemma bw_write_ok e : hop_ok (e_hop e) -> forall fuel p s acc fr s',
+  st_ok (e_hop e) s -> frames_ok acc -> bw_write fuel e p s acc = Some (fr, s') ->
+  frames_ok fr /\ st_ok (e_hop e) s'.
+Proof.
+  intro Hhop. induction fuel as [|f IH]; intros p s acc fr s' Hs Ha; simpl.
+  - destruct ((e_bsz e - blen (buf s) <? blen p) && negb (berr s)); [discriminate|].
+    destruct (berr s); intro H; inversion H; subst; split; assumption.
+  - destruct ((e_bsz e - blen (buf s) <? blen p) && negb (berr s)).
+    + destruct (buf s) as [|b0 br].
+      * destruct (write_chunk e false p s) as [[fr1 n] s1] eqn:Ew.
+        destruct (write_chunk_ok _ _ _ _ _ _ _ Hhop Hs Ew) as [F S].
+        apply IH; [exact S|apply frames_ok_app; assumption].
+      * destruct (bw_flush e false (set_buf s ((b0 :: br) ++ firstn (Z.to_nat (e_bsz e - blen (b0 :: br))) p) false))
+          as [fr1 s1] eqn:Ef.
+        destruct (bw_flush_ok _ _ _ _ _ Hhop (set_buf_ok _ s _ false Hs) Ef) as [F S].
+        apply IH; [exact S|apply frames_ok_app; assumption].
+    + destruct (berr s); intro H; inversion H; subst; split; assumption.
+Qed.
+
+Lemma do_flush_ok e done s fr s' :
+  hop_ok (e_hop e) -> st_ok (e_hop e) s -> do_flush e done s = (fr, s') -> frames_ok fr /\ st_ok (e_hop e) s'.
+Proof.
+  intros Hhop Hs. unfold do_flush. destruct (buf s).
+  - destruct (write_chunk e done [] s) as [[fr1 n] s1] eqn:Ew. intro H; inversion H; subst.
+    apply (write_chunk_ok _ _ _ _ _ _ _ Hhop Hs Ew).
+  - apply bw_flush_ok; assumption.
+Qed.
+
+Lemma step_ok e o s fr s' res :
+  hop_ok (e_hop e) -> st_ok (e_hop e) s -> step e o s = (fr, s', res) -> frames_ok fr /\ st_ok (e_hop e) s'.
+Proof.
+  intros Hhop Hs. destruct o; cbn [step]; cbv zeta.
+  - intro H; inversion H; subst. split; [apply frames_ok_nil|]. destruct Hs as [A [B C]].
+    split; [simpl; apply hput_canon; [exact A|apply canon_idem]|split; assumption].
+  - intro H; inversion H; subst. split; [apply frames_ok_nil|]. destruct Hs as [A [B C]].
+    split; [simpl; apply hput_canon; [exact A|apply canon_idem]|split; assumption].
+  - intro H; inversion H; subst. split; [apply frames_ok_nil|apply write_header_ok, Hs].
+  - pose proof (write_header_ok e 200 s Hs) as Hs1.
+    destruct (negb (body_allowed (status (write_header e 200 s))));
+      [intro H; inversion H; subst; split; [apply frames_ok_nil|exact Hs1]|].
+    match goal with |- context [if ?c then _ else _] => destruct c end;
+      [intro H; inversion H; subst; split; [apply frames_ok_nil|exact Hs1]|].
+    match goal with |- context [bw_write fuel_write e p ?S []] =>
+      destruct (bw_write fuel_write e p S []) as [[fr1 s1]|] eqn:Ew end;
+      [|intro H; inversion H; subst; split; [apply frames_ok_nil|exact Hs1]].
+    intro H; inversion H; subst.
+    eapply (bw_write_ok e Hhop); [| |exact Ew]; [exact Hs1|apply frames_ok_nil].
+  - destruct (do_flush e false s) as [fr1 s1] eqn:Ef. intro H; inversion H; subst.
+    eapply do_flush_ok; eassumption.
+Qed.
+
+Lemma run_ops_ok e : hop_ok (e_hop e) -> forall ops s fr s' res,
+  st_ok (e_hop e) s -> run_ops e ops s = (fr, s', res) -> frames_ok fr /\ st_ok (e_hop e) s'.
+Proof.
+  intro Hhop. induction ops as [|o r IH]; intros s fr s' res Hs; simpl.
+  - intro H; inversion H; subst. split; [apply frames_ok_nil|exact Hs].
+  - destruct (step e o s) as [[fr1 s1] res1] eqn:Es.
+    destruct (run_ops e r s1) as [[fr2 s2] res2] eqn:Er. intro H; inversion H; subst.
+    destruct (step_ok _ _ _ _ _ _ Hhop Hs Es) as [F1 S1].
+    destruct (IH _ _ _ _ S1 Er) as [F2 S2]. split; [apply frames_ok_app; assumption|exact S2].
+Qed.
+
+(* every field name in every HEADERS frame (response headers and trailers) is lower case and not connection-specific *)
+Theorem connection_specific_removed e ops :
+  hop_ok (e_hop e) ->
+  forall es fl, In (FH es fl) (frames_of e ops) -> fields_ok fl = true.
+Proof.
+  intros Hhop es fl Hin. unfold frames_of, run_handler in Hin.
+  destruct (run_ops e ops rws0) as [[fr1 s1] res1] eqn:Er.
+  destruct (do_flush e true s1) as [fr2 s2] eqn:Ef. simpl in Hin.
+  assert (H0 : st_ok (e_hop e) rws0) by (repeat split; constructor).
+  destruct (run_ops_ok e Hhop _ _ _ _ _ H0 Er) as [F1 S1].
+  destruct (do_flush_ok _ _ _ _ _ Hhop S1 Ef) as [F2 _].
+  apply (frames_ok_app _ _ F1 F2 _ Hin).
+Qed.
+
+Lemma hop_ok_real :
+  hop_ok [ [67;111;110;110;101;99;116;105;111;110]; [75;101;101;112;45;65;108;105;118;101];
+           [80;114;111;120;121;45;65;117;116;104;101;110;116;105;99;97;116;101];
+           [80;114;111;120;121;45;65;117;116;104;111;114;105;122;97;116;105;111;110];
+           [80;114;111;120;121;45;67;111;110;110;101;99;116;105;111;110];
+           [84;114;97;110;115;102;101;114;45;69;110;99;111;100;105;110;103]; [85;112;103;114;97;100;101] ].
+Proof. vm_compute. reflexivity. Qed.
+
+(* ---------- status first, trailers last ---------- *)
+Definition all_FD (l : list frame) : Prop := forall f, In f l -> is_FH f = false.
+Lemma all_FD_nil : all_FD []. Proof. intros f []. Qed.
+Lemma all_FD_app a b : all_FD a -> all_FD b -> all_FD (a ++ b).
+Proof. intros Ha Hb f Hf. apply in_app_or in Hf. destruct Hf; auto. Qed.
+Lemma all_FD_one e d : all_FD [FD e d]. Proof. intros f [<-|[]]. reflexivity. Qed.
+Lemma all_FD_removelast l : all_FD l -> all_FD (removelast l).
+Proof.
+  intros H f Hf. apply H. clear H. induction l as [|x r IH]; [destruct Hf|].
+  simpl in Hf. destruct r; [destruct Hf|]. destruct Hf as [<-|Hf]; [left; reflexivity|right; apply IH, Hf].
+Qed.
+
+(* S = the status the handler chose *)
+Definition wq (S : Z) (s : rws) : Prop := wroteH s = true /\ status s = S.
+(* frames so far: nothing before the response HEADERS; afterwards HEADERS(:status S ...) followed by DATA only *)
+Definition ainv (S : Z) (s : rws) (acc : list frame) : Prop :=
+  (if sentH s then exists es fl rest, acc = FH es (status_field S ++ fl) :: rest /\ all_FD rest else acc = [])
+  /\ (berr s = true -> sentH s = true).
+
+Lemma wh_wq e s S : status (write_header e 200 s) = S -> wq S (write_header e 200 s).
+Proof. intro H. split; [|exact H]. unfold write_header. destruct (wroteH s) eqn:E; [exact E|reflexivity]. Qed.
+Lemma wq_wh e c s S : wq S s -> write_header e c s = s.
+Proof. intros [A _]. unfold write_header. rewrite A. reflexivity. Qed.
+
+Lemma first_headers_status e done p s f s1 es :
+  first_headers e done p s = (f, s1, es) ->
+  (exists fl, f = FH es (status_field (status s) ++ fl)) /\ wroteH s1 = wroteH s /\ status s1 = status s.
+Proof.
+  unfold first_headers. cbv zeta.
+  match goal with |- (match ?X with pair _ _ => _ end) = _ -> _ => destruct X as [[snp scl] clen1] end.
+  intro H. inversion H; subst. clear H. simpl. split; [eexists; reflexivity|split; reflexivity].
+Qed.
+
+Lemma body_frames_wq e done p s1 fr s2 :
+  body_frames e done p s1 = (fr, s2) -> wroteH s2 = wroteH s1 /\ status s2 = status s1.
+Proof.
+  unfold body_frames.
+  destruct (if done then promote (hh s1) (trailers s1) else (hh s1, trailers s1)) as [h2 tr2].
+  destruct (done && match tr2 with [] => false | _ => true end).
+  - destruct (encode_trailers (e_hop e) h2 tr2); intro H; inversion H; subst; simpl; split; reflexivity.
+  - intro H; inversion H; subst; simpl; split; reflexivity.
+Qed.
+
+Lemma body_frames_FD e p s1 fr s2 : body_frames e false p s1 = (fr, s2) -> all_FD fr.
+Proof.
+  unfold body_frames. simpl. intro H.
+  destruct ((0 <? blen p) || false); inversion H; subst; [apply all_FD_one|apply all_FD_nil].
+Qed.
+
+Lemma body_frames_last e p s1 fr s2 :
+  body_frames e true p s1 = (fr, s2) -> exists pre l, fr = pre ++ [l] /\ all_FD pre.
+Proof.
+  unfold body_frames.
+  destruct (promote (hh s1) (trailers s1)) as [h2 tr2].
+  remember (encode_trailers (e_hop e) h2 tr2) as enc eqn:Eenc. clear Eenc.
+  destruct tr2 as [|t tr2]; cbn [andb negb].
+  - rewrite orb_true_r. intro H. inversion H; subst. exists [], (FD true p). split; [reflexivity|apply all_FD_nil].
+  - rewrite orb_false_r.
+    assert (Hp : all_FD (if 0 <? blen p then [FD false p] else []))
+      by (destruct (0 <? blen p); [apply all_FD_one|apply all_FD_nil]).
+    destruct enc as [|fl0 fl]; intro H; inversion H; subst; eexists _, _; (split; [reflexivity|exact Hp]).
+Qed.
+
+(* write_chunk while the handler runs *)
+Lemma wc_shape e p s acc fr n s' S :
+  status (write_header e 200 s) = S -> ainv S s acc -> write_chunk e false p s = (fr, n, s') ->
+  ainv S s' (acc ++ fr) /\ wq S s'.
+Proof.
+  intros HS [Ha Hb] Hw.
+  destruct (write_chunk_state _ _ _ _ _ _ _ Hw) as [Hsent [_ Hberr]].
+  pose proof (wh_wq e s S HS) as Hq.
+  revert Hw. unfold write_chunk.
+  rewrite <- (wh_sentH e 200 s) in Ha. set (s0 := write_header e 200 s) in *.
+  destruct (sentH s0) eqn:Es0.
+  - cbn iota beta. destruct Ha as [es [fl [rest [Ea Hr]]]].
+    assert (G : forall fr2 s2, all_FD fr2 -> wroteH s2 = wroteH s0 -> status s2 = status s0 -> sentH s2 = true ->
+                berr s2 = berr s -> ainv S s2 (acc ++ fr2) /\ wq S s2).
+    { intros fr2 s2 F W1 W2 W3 W4. split; [split|].
+      - rewrite W3. exists es, fl, (rest ++ fr2). subst acc. split; [reflexivity|apply all_FD_app; assumption].
+      - intros _. exact W3.
+      - destruct Hq as [Q1 Q2]. split; [rewrite W1; exact Q1|rewrite W2; exact Q2]. }
+    destruct (e_head e); [intro H; inversion H; subst; apply G; try reflexivity; [apply all_FD_nil|exact Es0|apply wh_berr]|].
+    destruct ((blen p =? 0) && negb false);
+      [intro H; inversion H; subst; apply G; try reflexivity; [apply all_FD_nil|exact Es0|apply wh_berr]|].
+    destruct (body_frames e false p s0) as [fr2 s2] eqn:Eb. intro H; inversion H; subst.
+    destruct (body_frames_wq _ _ _ _ _ _ Eb) as [W1 W2].
+    apply G; [apply (body_frames_FD _ _ _ _ _ Eb)|exact W1|exact W2|exact Hsent|exact Hberr].
+  - subst acc.
+    destruct (first_headers e false p s0) as [[f s1] es] eqn:Ef.
+    destruct (first_headers_status _ _ _ _ _ _ _ Ef) as [[fl Hf] [W1 W2]].
+    rewrite HS in Hf. subst f.
+    assert (G : forall fr2 s2, all_FD fr2 -> wroteH s2 = wroteH s1 -> status s2 = status s1 -> sentH s2 = true ->
+                ainv S s2 ([] ++ FH es (status_field S ++ fl) :: fr2) /\ wq S s2).
+    { intros fr2 s2 F V1 V2 V3. split; [split|].
+      - rewrite V3. exists es, fl, fr2. split; [reflexivity|exact F].
+      - intros _. exact V3.
+      - destruct Hq as [Q1 Q2]. split; [rewrite V1, W1; exact Q1|rewrite V2, W2; exact Q2]. }
+    destruct (first_headers_shape _ _ _ _ _ _ _ Ef) as [_ [V3 _]].
+    destruct es; [intro H; inversion H; subst; apply G; try reflexivity; [apply all_FD_nil|exact V3]|].
+    destruct (e_head e); [intro H; inversion H; subst; apply G; try reflexivity; [apply all_FD_nil|exact V3]|].
+    destruct ((blen p =? 0) && negb false);
+      [intro H; inversion H; subst; apply G; try reflexivity; [apply all_FD_nil|exact V3]|].
+    destruct (body_frames e false p s1) as [fr2 s2] eqn:Eb. intro H; inversion H; subst.
+    destruct (body_frames_wq _ _ _ _ _ _ Eb) as [V1 V2].
+    apply (G fr2 s'); [apply (body_frames_FD _ _ _ _ _ Eb)|exact V1|exact V2|exact Hsent].
+Qed.
+
+Lemma set_buf_ainv S s acc b : ainv S s acc -> ainv S (set_buf s b false) acc.
+Proof. intros [A B]. split; [exact A|discriminate]. Qed.
+
+Lemma fl_shape e s acc fr s' S :
+  wq S s -> ainv S s acc -> bw_flush e false s = (fr, s') -> ainv S s' (acc ++ fr) /\ wq S s'.
+Proof.
+  intros Hq Ha. unfold bw_flush.
+  destruct (berr s) eqn:Eb; [intro H; inversion H; subst; rewrite app_nil_r; split; assumption|].
+  destruct (buf s) as [|b0 br] eqn:Ebuf; [intro H; inversion H; subst; rewrite app_nil_r; split; assumption|].
+  destruct (write_chunk e false (b0 :: br) s) as [[fr1 n] s1] eqn:Ew.
+  assert (HS : status (write_header e 200 s) = S) by (rewrite (wq_wh e 200 s S Hq); apply Hq).
+  destruct (wc_shape _ _ _ _ _ _ _ _ HS Ha Ew) as [[A1 A2] Q].
+  destruct (write_chunk_state _ _ _ _ _ _ _ Ew) as [Hsent _].
+  destruct (n <? blen (b0 :: br)); intro H; inversion H; subst; (split; [split|exact Q]); simpl;
+    rewrite ?Hsent in *; try exact A1; intros _; reflexivity.
+Qed.
+
+Lemma bw_shape e S : forall fuel p s acc fr s',
+  wq S s -> ainv S s acc -> bw_write fuel e p s acc = Some (fr, s') -> ainv S s' fr /\ wq S s'.
+Proof.
+  induction fuel as [|f IH]; intros p s acc fr s' Hq Ha; simpl.
+  - destruct ((e_bsz e - blen (buf s) <? blen p) && negb (berr s)); [discriminate|].
+    destruct (berr s) eqn:Eb; intro H; inversion H; subst; (split; [|exact Hq]); [exact Ha|apply set_buf_ainv, Ha].
+  - destruct ((e_bsz e - blen (buf s) <? blen p) && negb (berr s)).
+    + destruct (buf s) as [|b0 br] eqn:Ebuf.
+      * destruct (write_chunk e false p s) as [[fr1 n] s1] eqn:Ew.
+        assert (HS : status (write_header e 200 s) = S) by (rewrite (wq_wh e 200 s S Hq); apply Hq).
+        destruct (wc_shape _ _ _ _ _ _ _ _ HS Ha Ew) as [A Q]. apply IH; assumption.
+      * destruct (bw_flush e false (set_buf s ((b0 :: br) ++ firstn (Z.to_nat (e_bsz e - blen (b0 :: br))) p) false))
+          as [fr1 s1] eqn:Ef.
+        destruct (fl_shape e (set_buf s ((b0 :: br) ++ firstn (Z.to_nat (e_bsz e - blen (b0 :: br))) p) false) acc fr1 s1 S Hq (set_buf_ainv _ _ _ _ Ha) Ef) as [A Q]. apply IH; assumption.
+    + destruct (berr s) eqn:Eb; intro H; inversion H; subst; (split; [|exact Hq]); [exact Ha|apply set_buf_ainv, Ha].
+Qed.
+
+(* between operations: the status is decided (wroteH) or still open (then nothing is buffered) *)
+Definition sinv (S : Z) (s : rws) (r : list hop_) : Prop :=
+  (if wroteH s then status s = S else spec_status r = S /\ buf s = [] /\ berr s = false).
+
+Lemma step_shape e o r s acc fr s' res S :
+  sinv S s (o :: r) -> ainv S s acc -> step e o s = (fr, s', res) ->
+  sinv S s' r /\ ainv S s' (acc ++ fr).
+Proof.
+  intros Hs Ha. destruct o; cbn [step]; cbv zeta.
+  - intro H; inversion H; subst. rewrite app_nil_r. split; [exact Hs|exact Ha].
+  - intro H; inversion H; subst. rewrite app_nil_r. split; [exact Hs|exact Ha].
+  - intro H; inversion H; subst. rewrite app_nil_r. unfold sinv, write_header in *.
+    destruct (wroteH s) eqn:Ew; [rewrite Ew; split; [exact Hs|exact Ha]|]. simpl in *.
+    split; [apply Hs|]. destruct Ha as [A B]. split; assumption.
+  - assert (HS : status (write_header e 200 s) = S).
+    { unfold sinv, write_header in *. destruct (wroteH s); [exact Hs|apply Hs]. }
+    pose proof (wh_wq e s S HS) as Hq.
+    assert (Ha1 : ainv S (write_header e 200 s) acc)
+      by (destruct Ha as [A B]; split; rewrite ?wh_sentH, ?wh_berr; assumption).
+    assert (Hdone : sinv S (write_header e 200 s) r /\ ainv S (write_header e 200 s) (acc ++ []))
+      by (rewrite app_nil_r; split; [unfold sinv; destruct Hq as [Q1 Q2]; rewrite Q1; exact Q2|exact Ha1]).
+    destruct (negb (body_allowed (status (write_header e 200 s)))); [intro H; inversion H; subst; exact Hdone|].
+    match goal with |- context [if ?c then _ else _] => destruct c end; [intro H; inversion H; subst; exact Hdone|].
+    match goal with |- context [bw_write fuel_write e p ?S0 []] =>
+      destruct (bw_write fuel_write e p S0 []) as [[fr1 s1]|] eqn:Ew end; [|intro H; inversion H; subst; exact Hdone].
+    intro H; inversion H; subst.
+    pose proof (bw_write_acc e _ _ _ _ _ _ Ew acc) as G. rewrite app_nil_r in G.
+    destruct (bw_shape e _ fuel_write p (set_wroteB (write_header e 200 s) (wroteB (write_header e 200 s) + blen p)) acc _ _ Hq Ha1 G) as [A Q].
+    split; [unfold sinv; destruct Q as [Q1 Q2]; rewrite Q1; exact Q2|exact A].
+  - assert (HS : status (write_header e 200 s) = S).
+    { unfold sinv, write_header in *. destruct (wroteH s); [exact Hs|apply Hs]. }
+    assert (Hq : buf s <> [] -> wq S s).
+    { intro Hne. unfold sinv in Hs. destruct (wroteH s) eqn:Ew; [split; [exact Ew|exact Hs]|].
+      destruct Hs as [_ [Hb _]]. contradiction. }
+    destruct (do_flush e false s) as [fr1 s1] eqn:Ef. intro H. injection H as E1 E2 E3. subst fr1 s1 res.
+    unfold do_flush in Ef. destruct (buf s) as [|z0 l0] eqn:Ebuf.
+    + destruct (write_chunk e false [] s) as [[x1 x2] x3] eqn:Ew. injection Ef as E1 E2. subst x1 x3.
+      destruct (wc_shape _ _ _ _ _ _ _ _ HS Ha Ew) as [A Q].
+      split; [unfold sinv; destruct Q as [Q1 Q2]; rewrite Q1; exact Q2|exact A].
+    + assert (Hq' : wq S s) by (apply Hq; discriminate).
+      destruct (fl_shape _ _ _ _ _ _ Hq' Ha Ef) as [A Q].
+      split; [unfold sinv; destruct Q as [Q1 Q2]; rewrite Q1; exact Q2|exact A].
+Qed.
+
+Lemma run_ops_shape e S : forall ops s acc fr s' res,
+  sinv S s ops -> ainv S s acc -> run_ops e ops s = (fr, s', res) ->
+  sinv S s' [] /\ ainv S s' (acc ++ fr).
+Proof.
+  induction ops as [|o r IH]; intros s acc fr s' res Hs Ha; simpl.
+  - intro H; inversion H; subst. rewrite app_nil_r. split; assumption.
+  - destruct (step e o s) as [[fr1 s1] res1] eqn:Es.
+    destruct (run_ops e r s1) as [[fr2 s2] res2] eqn:Er. intro H; inversion H; subst.
+    destruct (step_shape _ _ _ _ _ _ _ _ _ Hs Ha Es) as [Hs1 Ha1].
+    rewrite app_assoc. eapply IH; eassumption.
+Qed.
+
+Lemma wc_done_shape e p s acc fr n s' S :
+  status (write_header e 200 s) = S -> ainv S s acc -> write_chunk e true p s = (fr, n, s') ->
+  exists es fl rest, acc ++ fr = FH es (status_field S ++ fl) :: rest /\ all_FD (removelast rest).
+Proof.
+  intros HS [Ha _]. unfold write_chunk.
+  rewrite <- (wh_sentH e 200 s) in Ha. set (s0 := write_header e 200 s) in *.
+  destruct (sentH s0) eqn:Es0.
+  - cbn iota beta. destruct Ha as [es [fl [rest [Ea Hr]]]]. subst acc.
+    destruct (e_head e).
+    { intro H; inversion H; subst fr. exists es, fl, rest. rewrite app_nil_r. split; [reflexivity|apply all_FD_removelast, Hr]. }
+    rewrite andb_false_r.
+    destruct (body_frames e true p s0) as [fr2 s2] eqn:Eb. intro H; inversion H; subst fr.
+    destruct (body_frames_last _ _ _ _ _ Eb) as [pre [l [E Hp]]].
+    exists es, fl, (rest ++ fr2). split; [reflexivity|].
+    rewrite E, app_assoc, removelast_last. apply all_FD_app; assumption.
+  - subst acc.
+    destruct (first_headers e true p s0) as [[f s1] es] eqn:Ef.
+    destruct (first_headers_status _ _ _ _ _ _ _ Ef) as [[fl Hf] _]. rewrite HS in Hf. subst f.
+    destruct es; [intro H; inversion H; subst fr; exists true, fl, []; split; [reflexivity|apply all_FD_nil]|].
+    destruct (e_head e); [intro H; inversion H; subst fr; exists false, fl, []; split; [reflexivity|apply all_FD_nil]|].
+    rewrite andb_false_r.
+    destruct (body_frames e true p s1) as [fr2 s2] eqn:Eb. intro H; inversion H; subst fr.
+    destruct (body_frames_last _ _ _ _ _ Eb) as [pre [l [E Hp]]].
+    exists false, fl, fr2. split; [reflexivity|]. rewrite E, removelast_last. exact Hp.
+Qed.
+
+(* The first frame is the response HEADERS and its first field is :status = the handler's status; every further
+   frame except possibly the last one is DATA (so trailers, if any, are the last frame, after the whole body). *)
+Theorem status_first_trailers_last e ops :
+  exists es fl rest,
+    frames_of e ops = FH es (status_field (spec_status ops) ++ fl) :: rest /\ all_FD (removelast rest).
+Proof.
+  unfold frames_of, run_handler.
+  destruct (run_ops e ops rws0) as [[fr1 s1] res1] eqn:Er.
+  destruct (do_flush e true s1) as [fr2 s2] eqn:Ef. simpl.
+  set (S := spec_status ops).
+  assert (Hs0 : sinv S rws0 ops) by (unfold sinv; simpl; repeat split; reflexivity).
+  assert (Ha0 : ainv S rws0 []) by (split; simpl; [reflexivity|discriminate]).
+  destruct (run_ops_shape e S ops rws0 [] fr1 s1 res1 Hs0 Ha0 Er) as [Hs1 Ha1]. simpl in Ha1.
+  assert (HS : status (write_header e 200 s1) = S).
+  { unfold sinv, write_header in *. destruct (wroteH s1); [exact Hs1|]. simpl. destruct Hs1 as [Hs1 _]. simpl in Hs1.
+    exact Hs1. }
+  unfold do_flush in Ef. destruct (buf s1) as [|z0 l0] eqn:Ebuf.
+  - destruct (write_chunk e true [] s1) as [[x1 x2] x3] eqn:Ew. inversion Ef; subst x1 x3.
+    apply (wc_done_shape _ _ _ _ _ _ _ _ HS Ha1 Ew).
+  - unfold bw_flush in Ef. rewrite Ebuf in Ef. destruct (berr s1) eqn:Eb.
+    + inversion Ef; subst fr2 s2. rewrite app_nil_r. destruct Ha1 as [A B]. rewrite (B Eb) in A.
+      destruct A as [es [fl [rest [E Hr]]]]. exists es, fl, rest. split; [exact E|apply all_FD_removelast, Hr].
+    + destruct (write_chunk e true (z0 :: l0) s1) as [[x1 x2] x3] eqn:Ew.
+      assert (fr2 = x1) by (destruct (x2 <? blen (z0 :: l0)); inversion Ef; reflexivity). subst fr2.
+      apply (wc_done_shape _ _ _ _ _ _ _ _ HS Ha1 Ew).
 Qed.
